@@ -32,12 +32,41 @@ class Yajilin(base.Rule):
         s = [(1, 1), (1, 2), (2, 1), (1, 3), (3, 1), (2, 2), (2, 3), (3, 2), (3, 3)]
         if tier != "quick":
             s += [(1, 4), (4, 1), (2, 4), (4, 2), (3, 4), (4, 3)]
+        # long thin boards for clue values of two digits (one clue, or one clue per end)
+        s += [("long", 1, 12), ("long", 12, 1), ("long", 3, 12), ("long", 12, 3)]
+        if tier != "quick":
+            s += [("long", 2, 13), ("long", 13, 2), ("long", 1, 23), ("long", 23, 1)]
         return s
 
     def alphabet(self, shape):
         return ["??"] + [d + str(n) for d in ARROWS for n in (0, 1, 2)]
 
     def instances(self, shape, cap):
+        if shape[0] == "long":
+            _, h, w = shape
+            horiz = w >= h
+            n = max(h, w)
+            for v in (n - 3, n - 2, 9, 10, 11, 5):
+                if v < 0:
+                    continue
+                for line in range(min(h, w)):
+                    for near, far in (((">" if horiz else "v"), ("<" if horiz else "^")),):
+                        p1 = [[".."] * w for _ in range(h)]
+                        p2 = [[".."] * w for _ in range(h)]
+                        p3 = [[".."] * w for _ in range(h)]
+                        if horiz:
+                            p1[line][0] = near + str(v)
+                            p2[line][w - 1] = far + str(v)
+                            p3[line][0] = near + str(v)
+                            p3[line][w - 1] = far + str(max(0, v - 1))
+                        else:
+                            p1[0][line] = near + str(v)
+                            p2[h - 1][line] = far + str(v)
+                            p3[0][line] = near + str(v)
+                            p3[h - 1][line] = far + str(max(0, v - 1))
+                        for pr in (p1, p2, p3):
+                            yield {"height": h, "width": w, "problem": pr}
+            return
         h, w = shape
         lays, k = base.layouts(h * w, "..", self.alphabet(shape), cap)
         for cells in lays:
